@@ -335,13 +335,13 @@ func (p *twkbParser) parseBBoxHeader() (ExtendedEnvelope, error) {
 	}
 	switch {
 	case p.hasZ && p.hasM:
-		minX := float64(p.bbox[0]) / p.scalings[0]
-		minY := float64(p.bbox[2]) / p.scalings[1]
+		minX := p.descaleXY(p.bbox[0])
+		minY := p.descaleXY(p.bbox[2])
 		minZ := float64(p.bbox[4]) / p.scalings[2]
 		minM := float64(p.bbox[6]) / p.scalings[3]
 
-		maxX := float64(p.bbox[0]+p.bbox[1]) / p.scalings[0]
-		maxY := float64(p.bbox[2]+p.bbox[3]) / p.scalings[1]
+		maxX := p.descaleXY(p.bbox[0] + p.bbox[1])
+		maxY := p.descaleXY(p.bbox[2] + p.bbox[3])
 		maxZ := float64(p.bbox[4]+p.bbox[5]) / p.scalings[2]
 		maxM := float64(p.bbox[6]+p.bbox[7]) / p.scalings[3]
 
@@ -351,12 +351,12 @@ func (p *twkbParser) parseBBoxHeader() (ExtendedEnvelope, error) {
 			MRange:     NewInterval(minM, maxM),
 		}, nil
 	case p.hasZ:
-		minX := float64(p.bbox[0]) / p.scalings[0]
-		minY := float64(p.bbox[2]) / p.scalings[1]
+		minX := p.descaleXY(p.bbox[0])
+		minY := p.descaleXY(p.bbox[2])
 		minZ := float64(p.bbox[4]) / p.scalings[2]
 
-		maxX := float64(p.bbox[0]+p.bbox[1]) / p.scalings[0]
-		maxY := float64(p.bbox[2]+p.bbox[3]) / p.scalings[1]
+		maxX := p.descaleXY(p.bbox[0] + p.bbox[1])
+		maxY := p.descaleXY(p.bbox[2] + p.bbox[3])
 		maxZ := float64(p.bbox[4]+p.bbox[5]) / p.scalings[2]
 
 		return ExtendedEnvelope{
@@ -364,12 +364,12 @@ func (p *twkbParser) parseBBoxHeader() (ExtendedEnvelope, error) {
 			ZRange:     NewInterval(minZ, maxZ),
 		}, nil
 	case p.hasM:
-		minX := float64(p.bbox[0]) / p.scalings[0]
-		minY := float64(p.bbox[2]) / p.scalings[1]
+		minX := p.descaleXY(p.bbox[0])
+		minY := p.descaleXY(p.bbox[2])
 		minM := float64(p.bbox[4]) / p.scalings[2]
 
-		maxX := float64(p.bbox[0]+p.bbox[1]) / p.scalings[0]
-		maxY := float64(p.bbox[2]+p.bbox[3]) / p.scalings[1]
+		maxX := p.descaleXY(p.bbox[0] + p.bbox[1])
+		maxY := p.descaleXY(p.bbox[2] + p.bbox[3])
 		maxM := float64(p.bbox[4]+p.bbox[5]) / p.scalings[2]
 
 		return ExtendedEnvelope{
@@ -377,11 +377,11 @@ func (p *twkbParser) parseBBoxHeader() (ExtendedEnvelope, error) {
 			MRange:     NewInterval(minM, maxM),
 		}, nil
 	default:
-		minX := float64(p.bbox[0]) / p.scalings[0]
-		minY := float64(p.bbox[2]) / p.scalings[1]
+		minX := p.descaleXY(p.bbox[0])
+		minY := p.descaleXY(p.bbox[2])
 
-		maxX := float64(p.bbox[0]+p.bbox[1]) / p.scalings[0]
-		maxY := float64(p.bbox[2]+p.bbox[3]) / p.scalings[1]
+		maxX := p.descaleXY(p.bbox[0] + p.bbox[1])
+		maxY := p.descaleXY(p.bbox[2] + p.bbox[3])
 
 		return ExtendedEnvelope{
 			XYEnvelope: NewEnvelope(XY{minX, minY}, XY{maxX, maxY}),
@@ -632,11 +632,31 @@ func (p *twkbParser) parsePointArray(numPoints int) ([]float64, error) {
 			}
 
 			p.refpoint[d] += val // Reverse coord differencing to find the true value.
-			coords[c] = float64(p.refpoint[d]) / p.scalings[d]
+			coords[c] = p.descale(p.refpoint[d], d)
 			c++
 		}
 	}
 	return coords, nil
+}
+
+// descale converts a scaled integer ordinate of dimension d back to its
+// float64 value.
+func (p *twkbParser) descale(v int64, d int) float64 {
+	if d < 2 {
+		return p.descaleXY(v)
+	}
+	return float64(v) / p.scalings[d]
+}
+
+// descaleXY converts a scaled integer X or Y ordinate back to its float64
+// value. For a negative precision the scale factor 10^precXY has no exact
+// float64 representation, so dividing by it can be off by an ulp (4 / 1e-05
+// is 399999.99999999994); multiplying by the exact 10^-precXY is not.
+func (p *twkbParser) descaleXY(v int64) float64 {
+	if p.precXY < 0 {
+		return float64(v) * math.Pow10(-p.precXY)
+	}
+	return float64(v) / p.scalings[0]
 }
 
 func (p *twkbParser) parseIDList(numIDs int) error {
